@@ -625,21 +625,59 @@ func ruleR077(c *Ctx) {
 		return
 	}
 	want := map[string]string{}
+	// the number parser itself and the private helpers it delegates to (parseInt, parseFloat): those are shared with
+	// whoever else calls them and are the reference, not a sibling
+	refBodies := map[*ast.FuncDecl]bool{ref: true}
 	ast.Inspect(ref.Body, func(n ast.Node) bool {
 		if call, ok := n.(*ast.CallExpr); ok {
-			if ns, ok := numSyntaxOf(info, call); ok {
-				want[ns.kind] = ns.base
+			if cal := Callee(info, call); cal != nil && cal.Pkg() == vp.Types {
+				if hd := findFuncDecl(vp, cal); hd != nil && hd.Body != nil {
+					refBodies[hd] = true
+				}
 			}
 		}
 		return true
 	})
+	for rb := range refBodies {
+		ast.Inspect(rb.Body, func(n ast.Node) bool {
+			if call, ok := n.(*ast.CallExpr); ok {
+				if ns, ok := numSyntaxOf(info, call); ok {
+					want[ns.kind] = ns.base
+				}
+			}
+			return true
+		})
+	}
 	if len(want) == 0 {
 		c.Undecided("value.FunctionGenerator.ParseNumber", ref.Pos(), "no strconv parser call found in the number parser of the language")
 		return
 	}
 	n := 0
 	forEachFuncBody([]*packages.Package{vp}, func(pkg *packages.Package, fn ast.Node, body *ast.BlockStmt) {
-		if fn == ast.Node(ref) {
+		if fd, ok := fn.(*ast.FuncDecl); ok && refBodies[fd] {
+			if fd != ref {
+				// a helper shared with the number parser: everything that converts through it agrees by construction
+				shared := false
+				ast.Inspect(vp.Syntax[0], func(ast.Node) bool { return false })
+				for _, f := range vp.Syntax {
+					ast.Inspect(f, func(y ast.Node) bool {
+						cc, ok := y.(*ast.CallExpr)
+						if !ok {
+							return true
+						}
+						if cal := Callee(info, cc); cal != nil && findFuncDecl(vp, cal) == fd {
+							if ed := c.EnclosingDecl(cc); ed != nil && ed != ref {
+								shared = true
+							}
+						}
+						return true
+					})
+				}
+				if shared {
+					n++
+					c.OK(declName(vp, fd)+"#shared-number-syntax", fd.Pos(), "the conversion helper is shared by the number parser of the language and the text to number methods: one syntax by construction")
+				}
+			}
 			return
 		}
 		ord := 0
